@@ -65,9 +65,14 @@ fn observe(b: &Board) -> Result<Position, String> {
     p.turn = if b.turn() == Color::White { Col::W } else { Col::B };
     p.half = b.half_move_clock() as u32;
     p.full = b.full_move_clock() as u32;
+    // rights and e.p. file: read from the Debug rendering when it has the known shape, otherwise
+    // (the rendering is not part of any property and may change) from the FEN writer's fields
     let dbg = format!("{b:?}");
+    let mut saw_rights = false;
+    let mut shape_ok = true;
     for line in dbg.lines() {
         if let Some(r) = line.strip_prefix("castle rights: ") {
+            saw_rights = true;
             for ch in r.chars() {
                 match ch {
                     'K' => p.castle[0] = true,
@@ -75,15 +80,47 @@ fn observe(b: &Board) -> Result<Position, String> {
                     'k' => p.castle[2] = true,
                     'q' => p.castle[3] = true,
                     '-' => {}
-                    _ => return Err(format!("rights text {r:?}")),
+                    _ => shape_ok = false,
                 }
             }
         } else if let Some(e) = line.strip_prefix("en-passant: ") {
-            p.ep = "ABCDEFGH".find(e.trim()).map(|i| i as u8);
+            match "ABCDEFGH".find(e.trim()) {
+                Some(i) if e.trim().len() == 1 => p.ep = Some(i as u8),
+                _ => shape_ok = false,
+            }
+        }
+    }
+    if !saw_rights || !shape_ok {
+        DEBUG_FALLBACKS.fetch_add(1, std::sync::atomic::Ordering::Relaxed);
+        p.castle = [false; 4];
+        p.ep = None;
+        let text = b.to_string();
+        let f: Vec<&str> = text.split_whitespace().collect();
+        if f.len() != 6 {
+            return Err(format!("FEN writer produced {text:?}"));
+        }
+        for ch in f[2].chars() {
+            match ch {
+                'K' => p.castle[0] = true,
+                'Q' => p.castle[1] = true,
+                'k' => p.castle[2] = true,
+                'q' => p.castle[3] = true,
+                '-' => {}
+                _ => return Err(format!("rights field {:?}", f[2])),
+            }
+        }
+        if f[3] != "-" {
+            let c = f[3].as_bytes()[0];
+            if !(b'a'..=b'h').contains(&c) {
+                return Err(format!("e.p. field {:?}", f[3]));
+            }
+            p.ep = Some(c - b'a');
         }
     }
     Ok(p)
 }
+
+static DEBUG_FALLBACKS: std::sync::atomic::AtomicU64 = std::sync::atomic::AtomicU64::new(0);
 
 struct Counting {
     polls: Cell<u64>,
@@ -624,7 +661,9 @@ fn main() {
         let calls = gen_history(&mut rng, &corpus, false);
         c.sample(obj().set("calls", calls.iter().take(30).map(|x| x.text()).collect::<Vec<_>>()));
     }
-    let text = c.to_json().dump();
+    let mut j = c.to_json();
+    j.put("observe_debug_fallbacks", DEBUG_FALLBACKS.load(std::sync::atomic::Ordering::Relaxed));
+    let text = j.dump();
     match &a.out {
         Some(p) => {
             std::fs::write(p, &text).expect("write result");
